@@ -26,6 +26,7 @@ import RqModel.Lemmas.ConvergeSql
 import RqModel.Lemmas.StoreSME
 import RqModel.Props.C14
 import RqModel.Props.C03
+import RqModel.Gen.ConvergeHook
 namespace C01
 open RqModel.Converge RqModel.StoreSM
 
@@ -129,6 +130,64 @@ def C01_full : Prop :=
       p.replayDb = p.liveDb ∧ p.installDb = p.liveDb ∧ p.recoverDb = p.liveDb
 
 theorem C01_full_holds : C01_full := fun _ _ M rs hc d0 p => converge M rs hc d0 p
+
+/-! ### observers of commits cannot decide what a node holds
+
+A node with change data capture enabled applies entries with a commit hook attached whose answer
+may depend on private, node-local state (how full the consumer's channel is); the other paths
+run without it. The dependency is explicit: `NoVeto`. -/
+
+theorem execObserved_noVeto (M : Sem D S) (ob : Observer D S) (h : NoVeto ob) (e : Env) (o : ob.O) (d : D) (s : S) :
+    (execObserved M ob e o d s).2 = M.exec e d s := by
+  simp [execObserved, h.stands]
+
+/-- with an observer that cannot veto, observed live apply holds what plain apply holds -
+whatever the observer's state, at every entry -/
+theorem applyObserved_noVeto (M : Sem D S) (ob : Observer D S) (h : NoVeto ob) (envs : Nat → Env) (log : List S) :
+    ∀ (i : Nat) (o : ob.O) (d : D), (applyObserved M ob envs i o d log).2 = applyFrom M envs i d log := by
+  induction log with
+  | nil => intro i o d; rfl
+  | cons s ss ih =>
+    intro i o d
+    simp only [applyObserved, applyFrom]
+    rw [ih, execObserved_noVeto M ob h]
+
+/-- **converge_observed.** As `converge`, with the live node observed by ANY observer that cannot
+veto, started in ANY private state: replay, install and recovery (which run unobserved) agree
+with the observed live apply. -/
+theorem converge_observed (M : Sem D S) (rs : List (Req S)) (hc : CoveredReqs M rs) (d0 : D)
+    (p : Paths M d0 (logOf M rs)) (ob : Observer D S) (hv : NoVeto ob) (o0 : ob.O) :
+    p.replayDb = (applyObserved M ob p.eLive 0 o0 d0 (logOf M rs)).2 ∧
+    p.installDb = (applyObserved M ob p.eLive 0 o0 d0 (logOf M rs)).2 ∧
+    p.recoverDb = (applyObserved M ob p.eLive 0 o0 d0 (logOf M rs)).2 := by
+  rw [applyObserved_noVeto M ob hv]
+  exact converge M rs hc d0 p
+
+/-- the model of db/cdc.go's hook lets every commit stand: for every channel capacity (0 too),
+every fill level and every statement -/
+theorem cdc_observer_cannot_veto (cap : Nat) (changes : S → Bool) : NoVeto (cdcObserver (D := D) cap changes) := by
+  constructor
+  intro o d s
+  simp only [cdcObserver]
+  split <;> (show commitStands (hookRC (cdcVerdict _)) = true; decide)
+
+/-- **converge_with_cdc.** CDC enabled on the live node, consumer never reading, channel of any
+capacity, already filled to any level: all paths still agree. -/
+theorem converge_with_cdc (M : Sem D S) (rs : List (Req S)) (hc : CoveredReqs M rs) (d0 : D)
+    (p : Paths M d0 (logOf M rs)) (cap fill : Nat) (changes : S → Bool) :
+    p.replayDb = (applyObserved M (cdcObserver cap changes) p.eLive 0 fill d0 (logOf M rs)).2 ∧
+    p.installDb = (applyObserved M (cdcObserver cap changes) p.eLive 0 fill d0 (logOf M rs)).2 ∧
+    p.recoverDb = (applyObserved M (cdcObserver cap changes) p.eLive 0 fill d0 (logOf M rs)).2 :=
+  converge_observed M rs hc d0 p _ (cdc_observer_cannot_veto cap changes) fill
+
+/-- `NoVeto` is needed: a hook that answers "not delivered" on a full channel (capacity 1, two
+row-changing entries) leaves the observed node without the second entry, which every other
+path applies. -/
+theorem vetoing_observer_diverges_witness :
+    (applyObserved miniSem (vetoingObserver 1 (fun _ => true)) (fun _ => ⟨0, 0⟩) 0 (0 : Nat) []
+      [XStmt.put 1 (.lit 5), XStmt.put 2 (.lit 6)]).2 = [(1, 5)] ∧
+    applyFrom miniSem (fun _ => ⟨0, 0⟩) 0 [] [XStmt.put 1 (.lit 5), XStmt.put 2 (.lit 6)] = [(1, 5), (2, 6)] := by
+  decide
 
 /-! ### the real rewriter: the law is derived, not assumed -/
 
@@ -250,7 +309,8 @@ recovery replay and the install: the node that applied live, the node restarted 
 point, the node recovered from a peers file and a node that installed a snapshot taken at any
 index and applied the suffix hold the same database. -/
 theorem store_paths_converge (A : CmdSem) (cs : List Cmd) (hd : Denotes A cs)
-    (liveEnv replayEnv recEnv recReplayEnv snapEnv instEnv : Nat → Env) (dn : C33.Down) (peers : Config) (k : Nat) :
+    (liveEnv replayEnv recEnv recReplayEnv snapEnv instEnv : Nat → Env) (dn : C33.Down) (peers : Config)
+    (hv : checkConfig peers = true) (k : Nat) :
     let n := runWritesE A liveEnv 0 {} cs
     n.live = replay [] cs ∧
     (openNodeE A replayEnv recEnv (crash n)).live = n.live ∧
@@ -273,7 +333,7 @@ theorem store_paths_converge (A : CmdSem) (cs : List Cmd) (hd : Denotes A cs)
     rw [← hn] at this; exact this
   · have hg := C33.goDown_spec (n := n) (by rw [hn]; exact C22.good_run C22.good_init _) dn
     rw [openNodeE_eq A _ _ _ (by show Denotes A (C33.goDown n dn).hist; rw [hg.2.2.1, hh]; exact hd)]
-    have := (C33.recover_keeps_applied (cs.map C22.Op.write) dn peers).1
+    have := (C33.recover_keeps_applied (cs.map C22.Op.write) dn peers hv).1
     rw [← hn] at this; exact this
   · rw [replayE_eq A snapEnv _ 0 [] (fun c hc => hd c (List.mem_of_mem_take hc)),
       replayE_eq A instEnv _ k _ (hd.drop k), ← replay_append, List.take_append_drop, hlive]
@@ -311,6 +371,19 @@ theorem code_write_endpoints :
     RqModel.Gen.StoreOrder.httpLoadSteps = endpointCalls .loadText ∧
     RqModel.Gen.StoreOrder.queryEndpoint = endpointCalls .queryStrong :=
   ⟨rfl, by decide, by decide, by decide, by decide, by decide⟩
+
+/-- the commit hook the store registers in fsmApply is `(*CDCStreamer).CommitHook`; every return
+statement of it returns what the model's `cdcVerdict` says (all `true`); `db.RegisterCommitHook`
+maps the verdict to SQLite's code as `hookRC` does; the pre-update callback has no result. Nothing
+else registers a (non-nil) commit hook. -/
+theorem code_commit_hook_cannot_veto :
+    RqModel.Gen.ConvergeHook.commitHookReturns = cdcHookReturns ∧
+    RqModel.Gen.ConvergeHook.registerCommitHookMapping = registerMapping ∧
+    RqModel.Gen.ConvergeHook.commitCallbackType = "func() int" ∧
+    RqModel.Gen.ConvergeHook.preUpdateCallbackType = "func(d sqlite3.SQLitePreUpdateData)" ∧
+    RqModel.Gen.ConvergeHook.fsmApplyCommitHooks = ["s.cdcStreamer.CommitHook"] ∧
+    RqModel.Gen.ConvergeHook.otherCommitHooks = ["nil"] :=
+  ⟨by decide, by decide, by decide, by decide, by decide, by decide⟩
 
 /-- both code paths that apply log entries to a database go through `CommandProcessor.Process` -/
 theorem code_single_apply_function :
